@@ -449,19 +449,24 @@ class DiffXWriter(object):
         section = self._build_section(section_level, section_name)
         self._validate_section(section)
 
+        # Write the header first. If it can't be written (for instance, an
+        # option value that can't be represented in a header), then the
+        # state of the writer must not change.
+        cur_section_level = self._cur_section_level
+
+        self._write_section_header(section=section,
+                                   encoding=encoding,
+                                   **options)
+
         # If we're writing a new section at the current level, or moving up
         # levels, we'll need to pop the appropriate number of sections off
         # the stack.
-        for i in range(self._cur_section_level - section_level + 1):
+        for i in range(cur_section_level - section_level + 1):
             self._stack.pop()
 
         self._stack.append({
             'encoding': encoding or self._cur_encoding,
         })
-
-        self._write_section_header(section=section,
-                                   encoding=encoding,
-                                   **options)
 
     def _new_content_section(self,
                              section_name,
@@ -553,14 +558,16 @@ class DiffXWriter(object):
             if _value is not None
         )
 
-        fp = self.fp
-        fp.write(b'#%s:' % section.encode('ascii'))
+        # Build the whole header before writing any of it, so that nothing
+        # is written if it can't be encoded.
+        header = b'#%s:' % section.encode('ascii')
 
         if options_str:
-            fp.write(b' ')
-            fp.write(options_str.encode('ascii'))
+            header += b' ' + options_str.encode('ascii')
 
-        fp.write(b'\n')
+        header += b'\n'
+
+        self.fp.write(header)
 
         self._prev_section = section
 
